@@ -120,9 +120,26 @@ def _case(draw, tier):
             f = draw(st.floats(0.001, 0.999))
             tp = t0 + ln + f * gap
         a, b, p = plane_point(plane, t0), plane_point(plane, t0 + ln), plane_point(plane, tp)
+        axis = False
+        if draw(st.sampled_from([False, False, True])):
+            # arcs that start or end exactly on a coordinate axis (a pole, the equator): the
+            # parameters are multiples of pi/2 and the rounding residue of cos/sin is snapped to 0
+            axis = True
+            h = math.pi / 2
+            k0 = draw(st.integers(-2, 2))
+            la = draw(st.sampled_from([h, h, -h]) | st.floats(-3.0, 3.0).filter(lambda v: 1e-3 < abs(v) < math.pi - 1e-3))
+            tq = draw(
+                st.sampled_from([k0 * h + la + math.pi, k0 * h + math.pi, k0 * h - h, k0 * h + la / 2, k0 * h + 2 * h + la / 2])
+                | st.floats(-math.pi, math.pi)
+            )
+            snap = lambda v: [0.0 if abs(c) < 1e-15 else (math.copysign(1.0, c) if abs(abs(c) - 1.0) < 1e-15 else c) for c in v]
+            a, b, p = snap(plane_point(plane, k0 * h)), snap(plane_point(plane, k0 * h + la)), snap(plane_point(plane, tq))
         if draw(st.booleans()):
             a, b = b, a
-        return {"kind": "within", "sub": "on:" + plane, "a": a, "b": b, "p": p, "quarter": draw(st.integers(0, 3))}
+        out = {"kind": "within", "sub": "on:" + plane, "a": a, "b": b, "p": p, "quarter": draw(st.integers(0, 3))}
+        if axis:
+            out["axis"] = True
+        return out
     if kind == "within-off":
         x = draw(unit_vec())
         d, _ = draw(tangent_dir(x))
@@ -166,6 +183,8 @@ def strategy(tier, excl):
 
 def classify(case):
     labs = ["kind:" + case["kind"], "sub:" + case["sub"]]
+    if case.get("axis"):
+        labs.append("axis-aligned-endpoint")
     return labs, True
 
 
